@@ -710,6 +710,28 @@ impl QueryEngine {
     }
 }
 
+/// Verification hooks: public entry points to the private plan analyses behind
+/// `extract_time_range` / `extract_column_predicates`, so a harness can feed
+/// logical plans directly (compiled only with the `verif_hooks` feature).
+#[cfg(feature = "verif_hooks")]
+impl QueryEngine {
+    /// `extract_time_bounds` on a plan; `None` = the last-hour default applies.
+    pub fn verif_time_bounds_of_plan(plan: &LogicalPlan) -> Option<(i64, i64)> {
+        let mut bounds = None;
+        Self::extract_time_bounds(plan, &mut bounds);
+        bounds
+    }
+
+    /// `extract_predicates_from_plan` on a plan.
+    pub fn verif_predicates_of_plan(
+        plan: &LogicalPlan,
+    ) -> Vec<crate::metadata::predicates::ColumnPredicate> {
+        let mut predicates = Vec::new();
+        Self::extract_predicates_from_plan(plan, &mut predicates);
+        predicates
+    }
+}
+
 #[cfg(test)]
 mod tests {
     use super::*;
